@@ -222,6 +222,13 @@ class Contract:
         self.owns_.extend(locs)
         return self
 
+    def shared(self, *exprs):
+        """expressions denoting futures that other tasks complete or wait for: a bare `await <that future>` would cancel it
+        when the awaiting task is cancelled (asyncio propagates a task's cancellation to the future it waits on); every
+        bare await of a future is checked not to be one of them (they have to go through asyncio.shield / asyncio.wait)"""
+        self.__dict__.setdefault("shared_", []).extend(exprs)
+        return self
+
     def lock(self, *exprs):
         self.locks_.extend(exprs)
         return self
